@@ -123,7 +123,8 @@ func checkC10Pay(r *run, c *H264PayCase) (CaseInfo, error) {
 	var want [][]byte
 	var pendSPS, pendPPS []byte
 	var got [][]byte
-	var f14Dropped [][]byte // pairs the known defect F14 would drop (STAP-A larger than the MTU)
+	var f14Dropped [][]byte     // pairs the known defect F14 would drop (STAP-A larger than the MTU)
+	fitPairs, stapaSeen := 0, 0 // SPS/PPS pairs whose STAP-A fits the MTU; STAP-A payloads emitted
 	var rx []byte
 	if c.SharedRx {
 		ci.class("one-receive-buffer")
@@ -148,6 +149,12 @@ func checkC10Pay(r *run, c *H264PayCase) (CaseInfo, error) {
 			default:
 				if pendSPS != nil && pendPPS != nil {
 					want = append(want, pendSPS, pendPPS)
+					if 1+2+len(pendSPS)+2+len(pendPPS) <= mtu {
+						fitPairs++
+					}
+					if 1+2+len(pendSPS)+2+len(pendPPS) == mtu {
+						ci.class("stap-a-fills-the-mtu-exactly")
+					}
 					if 1+2+len(pendSPS)+2+len(pendPPS) > mtu {
 						f14Dropped = append(f14Dropped, pendSPS, pendPPS)
 						ci.class("stap-a-does-not-fit")
@@ -175,6 +182,7 @@ func checkC10Pay(r *run, c *H264PayCase) (CaseInfo, error) {
 			head := true
 			switch pp.Kind {
 			case "stapa":
+				stapaSeen++
 				ci.class("stap-a")
 				if c.DisableStapA {
 					return ci, failf("%s: STAP-A although it is disabled", what)
@@ -244,6 +252,9 @@ func checkC10Pay(r *run, c *H264PayCase) (CaseInfo, error) {
 		if !bytes.Equal(pair[0], pair[1]) {
 			return ci, failf("output %d of %d returned by H264Packet changed while later packets of the stream were decoded: now %s, was %s", k, len(retained), hx(pair[0]), hx(pair[1]))
 		}
+	}
+	if !c.DisableStapA && stapaSeen != fitPairs && equalUnits(got, want) {
+		return ci, failf("%d SPS/PPS pairs have an aggregate that fits the MTU %d, but %d STAP-A payloads were emitted: a pair that fits must arrive as one STAP-A", fitPairs, mtu, stapaSeen)
 	}
 	// FU-A trains must carry the unit's NRI/type: implied by byte-exact reassembly below.
 	if !equalUnits(got, want) {
@@ -422,6 +433,14 @@ func genH264PayCase(t *rapid.T) *H264PayCase {
 					sps.Len = rapid.IntRange(2, 30).Draw(t, "spslen")
 					pps.Len = rapid.IntRange(2, 12).Draw(t, "ppslen")
 				}
+				if mtu >= 10 && rapid.IntRange(0, 3).Draw(t, "pairatfit") == 0 {
+					// the aggregate (1 + 2+len(SPS) + 2+len(PPS)) exactly at, one below or one above the MTU
+					total := mtu - 5 + rapid.SampledFrom([]int{0, 0, -1, 1}).Draw(t, "pairfitdelta")
+					pps.Len = mini(maxi(2, total/3), 200)
+					if total-pps.Len >= 2 && total-pps.Len <= 4000 {
+						sps.Len = total - pps.Len
+					}
+				}
 				call.Units = append(call.Units, sps)
 				if len(call.Units) >= nu && k+1 < ncalls && genBool(t, "splitpair") {
 					pendingPPS = &pps
@@ -516,7 +535,7 @@ func genH264DecCase(t *rapid.T) *H264DecCase {
 	return c
 }
 
-const ruleC10 = "payloader: 1-4 Payload calls on one H264Payloader, each an Annex-B buffer (3-/4-byte start codes, optional leading zero byte) or one bare unit; NAL types 1-23 weighted to 1,5,6,7,8,9,12, NRI 0-3, sizes 2 bytes to several MTUs biased to MTU+-2 and 1+k*(MTU-2)+-2 (one case in 60 holds a unit of 65534-131073 bytes, parameter sets included), bodies free of start-code emulation with a non-zero last byte; SPS/PPS only as adjacent pairs (possibly split across calls); MTU 3-1500 biased to 3-10; STAP-A on/off; AVC on/off. Oracle: independent RFC 6184 parser/reassembler on the output (single | STAP-A | FU-A shapes, S/E placement, >=2 fragments, R=0, no empty fragment, <= MTU, pair as one STAP-A or individually, IsPartitionHead on first payloads only, byte-exact units in order minus AUD/filler) and H264Packet output = reference depacketizer output per payload (payloads delivered as private copies or, half of the cases, through one receive buffer that is wiped before each delivery), the payload left unmodified, every output kept and compared again after the whole stream was decoded. decoder: streams from the independent encoder (single, STAP-A of 1-5 units, FU-A with arbitrary fragment sizes incl. 1-byte and empty ones, the start fragment included). Non-trivial = stream with an FU-A train or a STAP-A; distinct = FNV-64 of the JSON case"
+const ruleC10 = "payloader: 1-4 Payload calls on one H264Payloader, each an Annex-B buffer (3-/4-byte start codes, optional leading zero byte) or one bare unit; NAL types 1-23 weighted to 1,5,6,7,8,9,12, NRI 0-3, sizes 2 bytes to several MTUs biased to MTU+-2 and 1+k*(MTU-2)+-2 (one case in 60 holds a unit of 65534-131073 bytes, parameter sets included), bodies free of start-code emulation with a non-zero last byte; SPS/PPS only as adjacent pairs (possibly split across calls); MTU 3-1500 biased to 3-10; STAP-A on/off; AVC on/off. Oracle: independent RFC 6184 parser/reassembler on the output (single | STAP-A | FU-A shapes, S/E placement, >=2 fragments, R=0, no empty fragment, <= MTU, a pair whose aggregate fits the MTU as exactly one STAP-A (sizes biased to aggregate = MTU-1, MTU, MTU+1) and individually otherwise, IsPartitionHead on first payloads only, byte-exact units in order minus AUD/filler) and H264Packet output = reference depacketizer output per payload (payloads delivered as private copies or, half of the cases, through one receive buffer that is wiped before each delivery), the payload left unmodified, every output kept and compared again after the whole stream was decoded. decoder: streams from the independent encoder (single, STAP-A of 1-5 units, FU-A with arbitrary fragment sizes incl. 1-byte and empty ones, the start fragment included). Non-trivial = stream with an FU-A train or a STAP-A; distinct = FNV-64 of the JSON case"
 
 func TestC10(t *testing.T) {
 	r := begin(t, "C10", "exploration", ruleC10)
